@@ -220,6 +220,21 @@ func buildCases(thorough bool) []crashCase {
 			addCase(st, sp.name, sp.b, "")
 		}
 	}
+	// reject messages naming every command the node sends or handles (a reject for "block" and "tx"
+	// carries a hash), with every reject code, at every stage - whether or not anything of that
+	// kind was ever requested from the peer
+	for _, st := range stages {
+		for _, cmd := range []string{"block", "tx", "headers", "getheaders", "getdata", "version", "verack", "inv", "addr", "ping", "protoconf", "sendheaders", "", "whatever"} {
+			for _, code := range []wire.RejectCode{wire.RejectMalformed, wire.RejectInvalid, wire.RejectDuplicate, wire.RejectNonstandard} {
+				m := wire.NewMsgReject(cmd, code, "no")
+				if cmd == "block" || cmd == "tx" {
+					m.Hash = *netsim.Block1.BlockHash()
+				}
+				special2 := netsim.Msg(m)
+				addCase(st, fmt.Sprintf("reject[%s,%d]", cmd, code), special2, "ping")
+			}
+		}
+	}
 	// the same well-formed message two and three times in a row (handlers that count or refuse
 	// repetitions): the connection may be closed, but the node's run must come back
 	for _, st := range []string{"connect", "handshake", "ready-tx"} {
